@@ -1,12 +1,10 @@
 import Thanos.Model.Iter
+import Thanos.Lemmas.ListLike
 import Thanos.Generated.Facts
 /-
   C01 — Penalty replica deduplication yields a well-formed merge of replica samples.
 -/
 namespace Thanos.Dedup
-
-/-- timestamps strictly increase -/
-def SSorted (l : List Sample) : Prop := l.Pairwise (fun x y => x.t < y.t)
 
 /-- what a reader sees that first seeks to `t` and then iterates -/
 def seekDrain (t : Int) (i : AnyIt) : List Sample :=
@@ -34,6 +32,232 @@ theorem C01_seek_first_orig_false : ¬ C01_seek_first false := by
     rcases hq with rfl | rfl <;> (constructor <;> simp [SSorted, minT]))
   revert this
   decide
+
+/-! ### the deduplicated series is the fold of the pure penalty merge -/
+
+/-- what `dedupSeries.Iterator` yields: the replicas folded from the left with `pm2` -/
+def pmFold (r : List Sample) (rs : List (List Sample)) : List Sample := rs.foldl (pm2 minT) r
+
+/-- the iterator is list-like and, being fresh, will yield `L` -/
+def GoodL (i : AnyIt) (L : List Sample) : Prop :=
+  ∃ (V : i.σ → Prop) (abs : i.σ → List Sample), ListLike i.ops V abs ∧ InitLike i.ops V abs i.st L
+
+theorem drainN_spec {σ : Type} {o : Ops σ} {V : σ → Prop} {abs : σ → List Sample}
+    (h : ListLike o V abs) : ∀ (n : Nat) (s : σ), V s → abs s ≠ [] →
+      drainN o n s = (abs s).tail.take n := by
+  intro n
+  induction n with
+  | zero => intro s _ _; simp [drainN]
+  | succ n ih =>
+    intro s hV hne
+    unfold drainN
+    simp only [h.nextOk s hV hne]
+    cases htl : (abs s).tail with
+    | nil => simp
+    | cons x tl =>
+      have hne' : abs (o.next s).1 ≠ [] := by rw [h.nextAbs s hV hne, htl]; simp
+      simp only [List.isEmpty_cons, Bool.not_false, if_true]
+      rw [h.atS _ (h.nextV s hV hne) hne', h.nextAbs s hV hne, htl]
+      simp only [List.head?_cons, List.take_succ_cons]
+      rw [ih _ (h.nextV s hV hne) hne', h.nextAbs s hV hne, htl]
+      rfl
+
+theorem drain_good {i : AnyIt} {L : List Sample} (h : GoodL i L) : drain i = L := by
+  obtain ⟨V, abs, hl, hi⟩ := h
+  show drainN i.ops (i.ops.fuel i.st + 1) i.st = L
+  unfold drainN
+  simp only [hi.nextOk]
+  cases hL : L with
+  | nil => simp
+  | cons x tl =>
+    have hne : abs (i.ops.next i.st).1 ≠ [] := by rw [hi.nextAbs, hL]; simp
+    simp only [List.isEmpty_cons, Bool.not_false, if_true]
+    rw [hl.atS _ hi.nextV hne, hi.nextAbs, hL]
+    simp only [List.head?_cons]
+    rw [drainN_spec hl _ _ hi.nextV hne, hi.nextAbs, hL]
+    have := hi.fuel
+    rw [hL] at this
+    simp only [List.length_cons] at this
+    simp only [List.tail_cons]
+    rw [List.take_of_length_le (by omega)]
+
+theorem seekDrain_good {i : AnyIt} {L : List Sample} (h : GoodL i L) (t : Int) :
+    seekDrain t i = dropLt t L := by
+  obtain ⟨V, abs, hl, hi⟩ := h
+  unfold seekDrain AnyIt.seek AnyIt.atS
+  simp only [hi.seekOk t]
+  cases hL : dropLt t L with
+  | nil => simp
+  | cons x tl =>
+    have hne : abs (i.ops.seek t i.st).1 ≠ [] := by rw [hi.seekAbs, hL]; simp
+    simp only [List.isEmpty_cons, Bool.not_false, if_true]
+    rw [hl.atS _ (hi.seekV t) hne, hi.seekAbs, hL]
+    simp only [List.head?_cons]
+    show x :: drainN i.ops (i.ops.fuel (i.ops.seek t i.st).1 + 1) (i.ops.seek t i.st).1 = x :: tl
+    rw [drainN_spec hl _ _ (hi.seekV t) hne, hi.seekAbs, hL]
+    have := hl.fuel _ (hi.seekV t)
+    rw [hi.seekAbs, hL] at this
+    simp only [List.length_cons] at this
+    simp only [List.tail_cons]
+    rw [List.take_of_length_le (by omega)]
+
+theorem leafPkg_good (r : List Sample) (h : ∀ x ∈ r, minT < x.t) :
+    GoodL { σ := Leaf, ops := leafOps, st := Leaf.init r } r :=
+  ⟨leafV, Leaf.rest, leaf_listLike, leaf_initLike r h⟩
+
+theorem foldNode_goodL (acc : AnyIt) (L r : List Sample) (hacc : GoodL acc L)
+    (h : ∀ x ∈ r, minT < x.t) : GoodL (foldNode true false acc r) (pm2 minT L r) := by
+  obtain ⟨V, abs, hl, hi⟩ := hacc
+  exact ⟨nodeV V leafV abs Leaf.rest, nodeAbs abs Leaf.rest, node_listLike hl leaf_listLike true,
+    node_initLike hl leaf_listLike hi (leaf_initLike r h)⟩
+
+theorem foldl_goodL (rs : List (List Sample)) : ∀ (acc : AnyIt) (L : List Sample), GoodL acc L →
+    (∀ q ∈ rs, ∀ x ∈ q, minT < x.t) →
+    GoodL (rs.foldl (foldNode true false) acc) (rs.foldl (pm2 minT) L) := by
+  induction rs with
+  | nil => intro acc L h _; exact h
+  | cons r rs ih =>
+    intro acc L hacc h
+    exact ih _ _ (foldNode_goodL acc L r hacc (h r (by simp))) (fun q hq => h q (by simp [hq]))
+
+/-- the iterator of the deduplicated series is list-like over `pmFold r rs` -/
+theorem mk_goodL (r : List Sample) (rs : List (List Sample))
+    (h : ∀ q ∈ r :: rs, ∀ x ∈ q, minT < x.t) : GoodL (mk true false r rs) (pmFold r rs) := by
+  have hr := leafPkg_good r (h r (by simp))
+  cases rs with
+  | nil => exact hr
+  | cons r2 rs =>
+    exact foldl_goodL (r2 :: rs) _ r hr (fun q hq => h q (by simp [hq]))
+
+/-- **Refinement.**  Reading the deduplicated series with `Next` yields exactly the fold of the
+    pure penalty merge over the replicas (no panic, no sample lost to the loop fuel). -/
+theorem C01_drain (r : List Sample) (rs : List (List Sample))
+    (h : ∀ q ∈ r :: rs, ∀ x ∈ q, minT < x.t) : drain (mk true false r rs) = pmFold r rs :=
+  drain_good (mk_goodL r rs h)
+
+/-! ### properties of the fold -/
+
+theorem pmFold_mem (rs : List (List Sample)) : ∀ (L : List Sample) (z : Sample),
+    z ∈ rs.foldl (pm2 minT) L → z ∈ L ∨ ∃ q ∈ rs, z ∈ q := by
+  induction rs with
+  | nil => intro L z h; exact Or.inl h
+  | cons r rs ih =>
+    intro L z h
+    rcases ih _ z h with h | ⟨q, hq, hz⟩
+    · rcases pm2_mem h with h | h
+      · exact Or.inl h
+      · exact Or.inr ⟨r, by simp, h⟩
+    · exact Or.inr ⟨q, by simp [hq], hz⟩
+
+theorem pmFold_sorted (rs : List (List Sample)) : ∀ (L : List Sample), SSorted L →
+    (∀ x ∈ L, minT < x.t) → (∀ q ∈ rs, ∀ x ∈ q, minT < x.t) →
+    SSorted (rs.foldl (pm2 minT) L) := by
+  induction rs with
+  | nil => intro L h _ _; exact h
+  | cons r rs ih =>
+    intro L _ hL h
+    have hr := h r (by simp)
+    have := pm2_sorted (lastT := minT) (la := L) (lb := r)
+      (fun x hx => hL x (List.mem_of_mem_head? hx)) (fun x hx => hr x (List.mem_of_mem_head? hx))
+    exact ih _ this.1 this.2 (fun q hq => h q (by simp [hq]))
+
+theorem pmFold_identical (n : Nat) (r : List Sample) (hs : SSorted r) (hl : ∀ x ∈ r, minT < x.t) :
+    (List.replicate n r).foldl (pm2 minT) r = r := by
+  induction n with
+  | zero => rfl
+  | succ n ih =>
+    simp only [List.replicate_succ, List.foldl_cons]
+    rw [pm2_suffix hs (List.suffix_refl r) (fun x hx => by have := hl x (List.mem_of_mem_head? hx); omega)]
+    exact ih
+
+/-! ### C01 -/
+
+/-- input domain: every replica is sorted by time and its timestamps are not the sentinel
+    `math.MinInt64` (which the code uses for "nothing emitted yet") -/
+def ValidReplicas (r : List Sample) (rs : List (List Sample)) : Prop :=
+  ∀ q ∈ r :: rs, SSorted q ∧ ∀ x ∈ q, minT < x.t
+
+/-- **C01, order.**  For any number of replicas the merged series has strictly increasing timestamps. -/
+theorem C01_increasing (r : List Sample) (rs : List (List Sample)) (h : ValidReplicas r rs) :
+    SSorted (drain (mk true false r rs)) := by
+  rw [C01_drain r rs (fun q hq => (h q hq).2)]
+  exact pmFold_sorted rs r (h r (by simp)).1 (h r (by simp)).2 (fun q hq => (h q (by simp [hq])).2)
+
+/-- **C01, provenance.**  Every sample of the merged series is a sample (same timestamp and
+    value) of one of the replicas. -/
+theorem C01_provenance (r : List Sample) (rs : List (List Sample)) (h : ValidReplicas r rs)
+    (z : Sample) (hz : z ∈ drain (mk true false r rs)) : ∃ q ∈ r :: rs, z ∈ q := by
+  rw [C01_drain r rs (fun q hq => (h q hq).2)] at hz
+  rcases pmFold_mem rs r z hz with h | ⟨q, hq, hz⟩
+  · exact ⟨r, by simp, h⟩
+  · exact ⟨q, by simp [hq], hz⟩
+
+/-- **C01, single replica.** -/
+theorem C01_single (fixed counter : Bool) (r : List Sample) : drain (mk fixed counter r []) = r := by
+  show drainN leafOps (r.length + 1) (Leaf.init r) = r
+  have hdr : ∀ (n : Nat) (l : List Sample),
+      drainN leafOps n { rest := l, started := true } = l.tail.take n := by
+    intro n
+    induction n with
+    | zero => intro l; simp [drainN]
+    | succ n ih =>
+      intro l
+      unfold drainN
+      simp only [leafOps_next, leafOps_atS, leafNext, if_true, Leaf.cur]
+      cases htl : l.tail with
+      | nil => simp
+      | cons x tl =>
+        have := ih (x :: tl)
+        simp only [List.tail_cons] at this
+        simp [this]
+  unfold drainN
+  simp only [leafOps_next, leafOps_atS, leafNext, Leaf.init, Leaf.cur, Bool.false_eq_true, if_false, if_true]
+  cases r with
+  | nil => simp
+  | cons x tl =>
+    simp only [List.isEmpty_cons, Bool.not_false, if_true, List.head?_cons, List.length_cons,
+      hdr (tl.length + 1) (x :: tl), List.tail_cons]
+    rw [List.take_of_length_le (by omega)]
+
+/-- **C01, identical replicas.**  `n + 1` identical replicas come out as that replica. -/
+theorem C01_identical (n : Nat) (r : List Sample) (hs : SSorted r) (hl : ∀ x ∈ r, minT < x.t) :
+    drain (mk true false r (List.replicate n r)) = r := by
+  rw [C01_drain r _ (by
+    intro q hq
+    have : q = r := by
+      rcases List.mem_cons.mp hq with h | h
+      · exact h
+      · exact (List.mem_replicate.mp h).2
+    rw [this]; exact hl)]
+  exact pmFold_identical n r hs hl
+
+/-- **C01, seek first** holds for the repaired `Seek`: a reader that first seeks to `t` sees
+    exactly the samples from `t` on of what a reader iterating from the start sees. -/
+theorem C01_seek_first_fixed : C01_seek_first true := by
+  intro r rs t h
+  have hlow : ∀ q ∈ r :: rs, ∀ x ∈ q, minT < x.t := fun q hq => (h q hq).2
+  rw [C01_drain r rs hlow, seekDrain_good (mk_goodL r rs hlow) t]
+  exact (filter_ge_eq_dropLt t
+    (pmFold_sorted rs r (h r (by simp)).1 (h r (by simp)).2 (fun q hq => (h q (by simp [hq])).2))).symm
+
+/-! ### non-vacuity -/
+
+example : ValidReplicas [⟨10000, 1⟩, ⟨20000, 2⟩, ⟨30000, 3⟩] [[⟨5000, 4⟩, ⟨15000, 5⟩, ⟨25000, 6⟩], [⟨7000, 7⟩, ⟨27000, 9⟩]] := by
+  intro q hq
+  simp at hq
+  rcases hq with rfl | rfl | rfl <;> (constructor <;> simp [SSorted, minT])
+
+/-- three replicas: the penalty window drops close samples, the result mixes replicas -/
+example : drain (mk true false [⟨10000, 1⟩, ⟨20000, 2⟩, ⟨30000, 3⟩]
+    [[⟨5000, 4⟩, ⟨15000, 5⟩, ⟨25000, 6⟩], [⟨7000, 7⟩, ⟨27000, 9⟩]]) = [⟨5000, 4⟩, ⟨15000, 5⟩, ⟨25000, 6⟩] := by
+  decide
+
+/-- the repaired `Seek` on the F01 witness -/
+example : seekDrain 1 (mk true false [⟨10000, 1⟩, ⟨20000, 2⟩, ⟨30000, 3⟩] [[⟨5000, 4⟩, ⟨15000, 5⟩, ⟨25000, 6⟩]])
+    = [⟨5000, 4⟩, ⟨15000, 5⟩, ⟨25000, 6⟩] := by decide
+
+example : seekDrain 15001 (mk true false [⟨10000, 1⟩, ⟨20000, 2⟩, ⟨30000, 3⟩] [[⟨5000, 4⟩, ⟨15000, 5⟩, ⟨25000, 6⟩]])
+    = [⟨25000, 6⟩] := by decide
 
 /-! ### regenerated facts: the source still has the shape the model transliterates -/
 
